@@ -124,10 +124,13 @@ var propertyClauses = map[string]clauseInfo{
 			"these shapes are obligations at every addToRoot call of the tokeniser (parse, parseBackslash), for every path through the scanning loop",
 			"recognisers whose results become block attributes: list marker = bullet or 1-9 digits + . or ) (parseListMarker), ATX level = length of the # run (parseATXHeading), fence = 3+ equal fence characters (parseCodeFence), setext underline (parseSetextHeadingUnderline): exact contracts (shared with C15)",
 			"block spans start on their syntax: at the call that opens a fenced code block the line cursor stands on a run of at least three fence characters of the recorded character and length; at the call that opens an ATX heading it stands on level '#' characters; the list-marker block is opened on the first byte of the marker (a bullet, or 1-9 digits followed by . or )) and closed after exactly the marker's bytes — proved over the contracts of the real cursor methods (Indent, BytesAfterIndent, ConsumeIndent, Advance)",
+			"raw HTML tags: parseHTMLTag (with parseHTMLOpenTag, parseHTMLClosingTag, parseHTMLTagName, parseHTMLAttribute, skipLinkSpace under it) returns the null span or a span that starts at the reader's position on '<', ends right after a '>' inside the source and is not empty - for comments, processing instructions, declarations, CDATA sections, open and closing tags, across node boundaries of the inline byte reader",
+			"link labels: parseLinkLabel returns null spans or a span '[' ... ']' starting at the reader's position whose inner span is a non-empty range strictly after the '[' and inside the label; link titles start on their opening delimiter and their text span is the span minus one byte on each side; a pointy destination starts on '<'",
 		},
 		notDecided: []string{
-			"emphasis / strong (processEmphasis, wrap), code spans (parseCodeSpan over the inline reader), links and images (parseEndBracket), raw HTML tags (parseHTMLTag): the functions that build these nodes are abstracted in parse and not under contract",
-			"block quote starts with '>' and setext heading ends in its underline: those block starts are not under contract (the fence, ATX and list-marker starts are: see decided)",
+			"emphasis / strong (processEmphasis, wrap), code spans (parseCodeSpan over the inline reader), links and images as a whole (parseEndBracket): the functions that build these nodes are abstracted in parse and not under contract",
+			"raw HTML and link labels: the scanners are under contract (see decided), but the call sites that turn their result into a node (parseRawHTML / parseEndBracket inside parse) are abstracted, and the reader well-formedness RdOK (nodes non-nil, inside the source, in source order, indent nodes blank) is assumed where a reader is constructed",
+			"setext heading ends in its underline: that block start is not under contract (the fence, ATX, list-marker and block-quote starts are: see decided)",
 			"span validity inside parse (cursor within the unparsed run) is assumed (A-C02-1)",
 		},
 	},
@@ -149,6 +152,7 @@ var propertyClauses = map[string]clauseInfo{
 			"character boundaries, for valid UTF-8 input: the spans of the nodes the tokeniser creates directly (character references, autolinks and their text child, soft and hard line breaks, and the text nodes made by parseBackslash) begin and end on character boundaries — obligations at every addToRoot call, for every path",
 			"an autolink's text child lies inside the autolink's span",
 			"a root block's span ends at len(Source) (makeRoot)",
+			"the inline byte reader (next, current, currentNode, remainingNodeBytes) over nodes that are non-nil, inside the source and in source order never moves backwards, stays within the source, and lands only on node starts when it jumps; on top of it the HTML tag, link label, link destination and link title scanners return either null spans or valid ranges of the source that start at the reader's position (non-empty except a bare destination), with the inner/text span inside the outer one for labels",
 		},
 		notDecided: []string{
 			"validity (0 <= Start <= End <= len(Source)), nesting and sibling order in general: they need the cursor invariant of parse across the abstracted tree-building calls (A-C02-1) and contracts on wrap / processEmphasis / parseEndBracket / the block-structure code",
